@@ -149,6 +149,19 @@ func init() {
 	})
 }
 
+func init() {
+	// ---- C15: optional, one-of and or-disabled inputs mean what their tags say ----
+	c15 := []*ir.Profile{
+		{Name: "c15-tags", MinSteps: 2, MaxSteps: 5, Durs: someDurs, Tags: true, PDisabled: 45, PWaitFor: 20, PDeploySlow: 30, MaxOutputs: 1},
+		{Name: "c15-tags-failing", MinSteps: 2, MaxSteps: 5, Durs: someDurs, Tags: true, Modes: []string{"err", "crash", "alt"}, PBad: 35, PDeployFail: 15, PDisabled: 35, PWaitFor: 20, MaxOutputs: 2, ErrOutput: true},
+		{Name: "c15-tags-hang", MinSteps: 2, MaxSteps: 4, Durs: []int64{0, 5, 50}, Tags: true, PDisabled: 30, SoftHang: true},
+	}
+	register(&PropDef{ID: "C15",
+		Gen:   func(t *rapid.T) *Case { return genS1(t, "C15", c15, true) },
+		Check: s1Check("C15", OracleTerminates, OracleResult, OracleInputs),
+	})
+}
+
 // OracleC07: a run ends with an error or a consistent output; panics are handled by s1Check.
 func OracleC07(prop string, v *View) []Violation {
 	if v.R.Outcome != "completed" {
